@@ -2,7 +2,7 @@
 From Coq Require Import List Arith Bool.
 Import ListNotations.
 From IT Require Import Sdpl.IR Sdpl.Elab Sdpl.Wf Runtime.Actor Runtime.ActorInv Runtime.InvDefs Runtime.InvDefs2 Runtime.InvSeq
-  Runtime.Combined Runtime.InvFault2 Runtime.Explore.
+  Runtime.Combined Runtime.InvFault2 Runtime.InvUnblock Runtime.Explore.
 
 Section C20.
 Context {A V : Type} (sem : nat -> A -> list V -> option (A * V)) (sem_slf : nat -> A -> list V -> V) (dv : V).
@@ -41,6 +41,25 @@ Proof.
   unfold loud in *. rewrite forallb_forall in *. intros rm Hin.
   match goal with L : forall x, In x _ -> rm_loud_send x && rm_loud_wait x = true |- _ => specialize (L rm Hin); apply andb_prop in L; apply L end.
 Qed.
+(* a caller blocked on a full bounded queue while a self-consuming method's stop message reaches the head: the play returns with
+   the actor (moved once), and the blocked caller's very next step ends its call with a panic - recorded as lost, never enqueued,
+   never left waiting on a queue nobody will read *)
+Theorem C20_blocked_released_by_stop : forall (m : model), wf_C20 m = true -> r_stop_first (elab m) = true ->
+  forall s c0 q a t cid k vs ab rm,
+  alive s = true -> busy s = None -> queue s = MStop c0 :: q -> actor s = Some a ->
+  at_send s t cid k vs ab -> meth (elab m) k = Some rm ->
+  exists s1 s2 cl, step (elab m) s Ac = Some s1 /\ alive s1 = false /\ exited s1 = Some Stopped /\ moved s1 = S (moved s)
+    /\ step (elab m) s1 (Cl t) = Some s2
+    /\ nth_error (clients s2) t = Some cl /\ c_pc cl = Dead /\ In (cid, Panicked) (c_rets cl)
+    /\ lost s2 = lost s ++ [cid] /\ enq s2 = enq s.
+Proof.
+  intros m W SF s c0 q a t cid k vs ab rm Al B Q Ha Hat Hm.
+  apply (stop_releases_blocked sem sem_slf dv (elab m) s c0 q a t cid k vs ab rm); auto.
+  unfold wf_C20 in W. repeat (apply andb_prop in W; destruct W as [W ?]).
+  unfold loud in *. rewrite forallb_forall in *. unfold meth in Hm.
+  match goal with L : forall x, In x _ -> rm_loud_send x && rm_loud_wait x = true |- _ =>
+    specialize (L rm (nth_error_In _ _ Hm)); apply andb_prop in L; apply L end.
+Qed.
 End C20.
 
 (* Which instances have a draining receiver: std and tokio receivers discard their queue when dropped; on the async-channel
@@ -75,5 +94,6 @@ Proof. vm_compute. reflexivity. Qed.
 Print Assumptions C20_no_hang.
 Print Assumptions C20_loud.
 Print Assumptions C20_no_fabrication.
+Print Assumptions C20_blocked_released_by_stop.
 Print Assumptions C20_drain_iff.
 Print Assumptions C20_no_hang_refuted_without_drain.
